@@ -167,6 +167,7 @@ type W struct {
 	fails    map[string]*failRec
 	knownHit map[string]int64
 	cur      any // case being judged (for panic reports)
+	scratch  []byte
 }
 
 // NewW returns a fresh worker accumulator.
@@ -761,4 +762,16 @@ func (w *W) FirstFailure() (class, detail string, ok bool) {
 		return "", "", false
 	}
 	return best, w.fails[best].detail, true
+}
+
+// Scratch copies s into a buffer owned by the worker and returns it. Judges hand this buffer (not a fresh allocation) to
+// the []byte instantiations of the parsers: a caller is free to reuse one read buffer for successive inputs, so a parser
+// that remembers (aliases) the bytes of an earlier call would then see the buffer change under it.
+func (w *W) Scratch(s string) []byte {
+	if cap(w.scratch) < len(s) {
+		w.scratch = make([]byte, len(s), len(s)*2+64)
+	}
+	w.scratch = w.scratch[:len(s)]
+	copy(w.scratch, s)
+	return w.scratch
 }
